@@ -1367,11 +1367,16 @@ def c15(ctx: Ctx) -> None:
                               'the decorator-with-options form is not supported any more',
                               construct=construct_key(d.qualname, 'no option form'))
             continue
-        none_label = 'true' if norm(br[0].meta['test']).endswith('is None') else 'false'
-        te = [e for e in g.succ[br[0].id] if e.label == none_label]
-        reached = reach(g, [], start_edges=te)
-        rets = [n for n in g.nodes if n.kind == 'return' and n.id in reached and find_path(g, [], [n], start_edges=te) is not None
-                and find_path(g, [], [n], start_edges=[e for e in g.succ[br[0].id] if e.label != none_label]) is None]
+        # the test that separates the two forms: the one whose "no function given" edge leads to a return that its other edge
+        # cannot reach (an argument check `if func is not None and not callable(func): raise` tests the same thing but returns nothing)
+        def _rets_of(b_):
+            lab_ = 'true' if norm(b_.meta['test']).endswith('is None') else 'false'
+            te_ = [e for e in g.succ[b_.id] if e.label == lab_]
+            reached_ = reach(g, [], start_edges=te_)
+            return [n for n in g.nodes if n.kind == 'return' and n.id in reached_ and find_path(g, [], [n], start_edges=te_) is not None
+                    and find_path(g, [], [n], start_edges=[e for e in g.succ[b_.id] if e.label != lab_]) is None]
+        br = sorted(br, key=lambda b_: 0 if _rets_of(b_) else 1)
+        rets = _rets_of(br[0])
         for rn in rets:
             v = rn.ast.value
             if not (isinstance(v, ast.Call) and (g.res.path(v.func) or '') == 'functools.partial'):
